@@ -7,6 +7,7 @@ import DK.Lemmas.BridgeSets.MF
 import DK.Lemmas.BridgeSets.MFCons
 import DK.Lemmas.BridgeSets.SubBalanced
 import DK.Lemmas.BridgeSets.Map
+import DK.Lemmas.BridgeSets.LeafCons
 /-!
 # BridgeSets (tie T1s): the generated translation of the SET-LEVEL glue equals the model
 
